@@ -157,6 +157,7 @@ pub fn run_world(
     let cap = cfg.guards.contains("capture_logs") || std::env::var("MDK_SIM_CAPTURE").is_ok();
     let _log_guard = if cap { Some(crate::logcap::install()) } else { None };
     let mut w = World::new(cfg.seed, dir.clone());
+    w.isolate_steps = cfg.guards.contains("isolate_steps");
     w.capture_logs = cap;
     let _ = crate::logcap::drain();
     let mut harness_error = None;
